@@ -188,6 +188,27 @@ def p_mask_flag_encoding_structure(script, v):
     return _has(script, "mask", "masked_iterate", "masked_iterate_final")
 
 
+def p_switch_bare_distribution_branch(script, v):
+    """a switch-like node one of whose branches is a distribution itself (through
+    map wrappers): with a traced index every branch is assessed, and a branch
+    that was not taken has no value in a hand-built choice map"""
+    from sim.ref import inner_nodes
+
+    def bare(b):
+        while b["k"] in ("map", "dimap", "contramap"):
+            b = b["inner"]
+        return b["k"] == "dist"
+
+    def walk(n):
+        if n["k"] in ("switch", "mix") and any(bare(b) for b in n["branches"]):
+            return True
+        if n["k"] == "or_else" and (bare(n["a"]) or bare(n["b"])):
+            return True
+        return any(walk(c) for c in inner_nodes(n))
+
+    return walk(script["programs"][0])
+
+
 def p_true(script, v):
     return True
 
